@@ -804,3 +804,31 @@ seeded('C09', 'counter batch: the checked list is extended before it is register
                             "        if not all(isinstance(v, int) for v in values):\n            raise TypeError('notification for counter is not an int')\n"
                             "        values.append(event.source)\n"
                             "        for v in values:\n            self.register(v)\n")], key='')
+_DL = "        for listener in self._listeners.get(event.event_type).copy():\n            listener.notify(event)\n"
+_DLT = "        for listener in self._listeners.get(timed_event.event_type).copy():\n            listener.notify(timed_event)\n"
+
+
+def _both(new):
+    return [('pubsub', _DL, new), ('pubsub', _DLT, new.replace('event.event_type', 'timed_event.event_type').replace('notify(event)', 'notify(timed_event)'))]
+
+
+benign('C08', 'delivery loop resolves the entry and skips None',
+       _both("        for entry in self._listeners.get(event.event_type).copy():\n            listener = entry\n"
+             "            if listener is not None:\n                listener.notify(event)\n"))
+benign('C08', 'delivery loop with a test for a foreign wrapper class',
+       _both("        for entry in self._listeners.get(event.event_type).copy():\n"
+             "            listener = entry() if isinstance(entry, type) else entry\n            listener.notify(event)\n"))
+seeded('C08', 'delivery loop skips listeners that are falsy', 'R8.1',
+       _both("        for listener in self._listeners.get(event.event_type).copy():\n            if listener:\n                listener.notify(event)\n"),
+       key='conditional')
+seeded('C08', 'delivery loop skips listeners that are producers too', 'R8.1',
+       _both("        for listener in self._listeners.get(event.event_type).copy():\n"
+             "            if not isinstance(listener, EventProducer):\n                listener.notify(event)\n"), key='conditional')
+_EP = "class EventProducer:\n"
+_ADAPTER = ("class _FnListener(EventListener):\n    def __init__(self, fn, name=''):\n        self._fn = fn\n        self._name = name\n\n"
+            "    def notify(self, event):\n        self._fn(event)\n\n    def __eq__(self, other):\n        return isinstance(other, _FnListener) and %s\n\n"
+            "    def __hash__(self):\n        return hash(self._fn)\n\n\n")
+benign('C08', 'adapter listener whose equality is that of the wrapped callable',
+       [('pubsub', _EP, _ADAPTER % "self._fn == other._fn" + _EP)])
+seeded('C08', 'adapter listener compared by its label', 'R8.9',
+       [('pubsub', _EP, _ADAPTER % "self._name == other._name" + _EP)], key='value-equality')
